@@ -684,12 +684,16 @@ func indexEntryMapperFor(index, primaryIndex *Index) store.EntryMapper {
 	valueExtractor := func(value []byte, valuesByColID map[uint32]TypedValue) error {
 		voff := 0
 
+		if len(value) < EncLenLen {
+			return ErrCorruptedData
+		}
+
 		cols := int(binary.BigEndian.Uint32(value[voff:]))
 		voff += EncLenLen
 
 		for i := 0; i < cols; i++ {
-			if len(value) < EncIDLen {
-				return fmt.Errorf("key is lower than required")
+			if len(value)-voff < EncIDLen {
+				return ErrCorruptedData
 			}
 
 			colID := binary.BigEndian.Uint32(value[voff:])
@@ -697,8 +701,11 @@ func indexEntryMapperFor(index, primaryIndex *Index) store.EntryMapper {
 
 			col, err := index.table.GetColumnByID(colID)
 			if errors.Is(err, ErrColumnDoesNotExist) {
-				vlen := int(binary.BigEndian.Uint32(value[voff:]))
-				voff += EncLenLen + vlen
+				vlen, n, err := DecodeValueLength(value[voff:])
+				if err != nil {
+					return err
+				}
+				voff += n + vlen
 				continue
 			} else if err != nil {
 				return err
